@@ -336,14 +336,18 @@ def classify(op, out):
     return (head, shape, sizes)
 
 
-def shrink_sequence(ctx, harness, ops, tag, still_fails):
-    """Delta debugging over an op sequence (stateful streams)."""
+def shrink_sequence(ctx, harness, ops, tag, still_fails, budget_s=None):
+    """Delta debugging over an op sequence (stateful streams), within a time budget (the divergence is
+    reported either way; shrinking only makes the replay shorter)."""
     cur = list(ops)
     n = 2
-    while len(cur) >= 2:
+    t_end = time.time() + (budget_s if budget_s is not None else (90 if ctx.tier == "quick" else 600))
+    while len(cur) >= 2 and time.time() < t_end:
         chunk = max(1, len(cur) // n)
         reduced = False
         for i in range(0, len(cur), chunk):
+            if time.time() >= t_end:
+                break
             cand = cur[:i] + cur[i + chunk:]
             if cand and still_fails(cand):
                 cur = cand
